@@ -6,14 +6,14 @@ PROP = {
         # one binary, three sub-checks; every case costs 1-5 ms of CPU (<= 3 MiB sent / 1.5 MiB received per case), so the
         # per-case watchdog (60 s) is four orders of magnitude away
         {"target": "c06_stream_rc", "sub": "bfd",
-         "quick": {"cases": 3500, "max_size": 40, "workers": 6, "case_alarm": 60},
-         "thorough": {"cases": 120000, "max_size": 60, "workers": 6, "case_alarm": 60}},
+         "quick": {"cases": 7000, "max_size": 40, "workers": 6, "case_alarm": 60},
+         "thorough": {"cases": 250000, "max_size": 60, "workers": 6, "case_alarm": 60}},
         {"target": "c06_stream_rc", "sub": "server",
-         "quick": {"cases": 2500, "max_size": 40, "workers": 5, "case_alarm": 60},
-         "thorough": {"cases": 75000, "max_size": 60, "workers": 5, "case_alarm": 60}},
+         "quick": {"cases": 5000, "max_size": 40, "workers": 5, "case_alarm": 60},
+         "thorough": {"cases": 130000, "max_size": 60, "workers": 5, "case_alarm": 60}},
         {"target": "c06_stream_rc", "sub": "client",
-         "quick": {"cases": 2500, "max_size": 40, "workers": 5, "case_alarm": 60},
-         "thorough": {"cases": 75000, "max_size": 60, "workers": 5, "case_alarm": 60}},
+         "quick": {"cases": 5000, "max_size": 40, "workers": 5, "case_alarm": 60},
+         "thorough": {"cases": 130000, "max_size": 60, "workers": 5, "case_alarm": 60}},
     ],
     "assumptions": [
         "SIGPIPE is ignored by the process (as tbox::main does); writes after the peer is gone are exercised for crash-freedom only",
